@@ -29,6 +29,7 @@ type c17Case struct {
 	Kind      string   // signer | backoff
 	Endpoints []string `json:",omitempty"` // answer names per endpoint, in configured order
 	NilList   bool     `json:",omitempty"`
+	Ctx       string   `json:",omitempty"` // "" live | cancelled (before the call) | expired (deadline already passed) | short (deadline 50 ms, for blocked handlers)
 	// backoff
 	Attempt    uint    `json:",omitempty"`
 	Base, Max  int64   `json:",omitempty"`
@@ -134,6 +135,18 @@ func c17Run(c *ev.Ctx, k c17Case) {
 	var serr error
 	ctx, cancel := context.WithTimeout(context.Background(), 20*time.Second)
 	defer cancel()
+	switch k.Ctx {
+	case "cancelled":
+		cancel()
+	case "expired":
+		var c2 context.CancelFunc
+		ctx, c2 = context.WithDeadline(context.Background(), time.Now().Add(-time.Second))
+		defer c2()
+	case "short":
+		var c2 context.CancelFunc
+		ctx, c2 = context.WithTimeout(context.Background(), 50*time.Millisecond)
+		defer c2()
+	}
 	if p := ev.Guard(func() { certs, comments, serr = signer.Sign(ctx, req) }); p != "" {
 		c.Violation("C17:crash:"+ev.PanicSite(p), p, k)
 		return
@@ -146,7 +159,19 @@ func c17Run(c *ev.Ctx, k c17Case) {
 			break
 		}
 	}
-	c.Outcome(fmt.Sprintf("endpoints=%d/first-ok=%d/err=%v", len(k.Endpoints), first, serr != nil))
+	deadCtx := k.Ctx == "cancelled" || k.Ctx == "expired"
+	if deadCtx {
+		first = -1 // the caller's context is already done: every endpoint fails (or is not tried); the call must fail
+	}
+	if k.Ctx == "short" {
+		// the deadline passes while an endpoint is blocked: whatever was reached, success needs certificates
+		c.Outcome(fmt.Sprintf("ctx=short/endpoints=%d/err=%v", len(k.Endpoints), serr != nil))
+		if serr == nil && len(certs) == 0 {
+			c.Violation("C17:empty-success:deadline", "the deadline passed during the call and Sign returned an empty success", k)
+		}
+		return
+	}
+	c.Outcome(fmt.Sprintf("ctx=%s/endpoints=%d/first-ok=%d/err=%v", k.Ctx, len(k.Endpoints), first, serr != nil))
 	if first > 0 {
 		c.Nontrivial(strings.Join(k.Endpoints, ","))
 		c.Count("vectors_that_failed_over", 1)
@@ -159,7 +184,13 @@ func c17Run(c *ev.Ctx, k c17Case) {
 			if len(k.Endpoints) == 0 {
 				what = "no endpoint is configured"
 			}
-			c.Violation(fmt.Sprintf("C17:empty-success:endpoints=%d", min(len(k.Endpoints), 1)), fmt.Sprintf("%s, yet Sign returned (%d certificates, %d comments, nil error)", what, len(certs), len(comments)), k)
+			if deadCtx {
+				what = "the caller's context is already " + k.Ctx + " so no endpoint can answer"
+			}
+			c.Violation(fmt.Sprintf("C17:empty-success:endpoints=%d:ctx=%s", min(len(k.Endpoints), 1), k.Ctx), fmt.Sprintf("%s, yet Sign returned (%d certificates, %d comments, nil error)", what, len(certs), len(comments)), k)
+		}
+		if deadCtx {
+			return // which endpoints were dialled with a dead context is not specified
 		}
 	} else {
 		if serr != nil {
@@ -230,7 +261,7 @@ func c17Backoff(c *ev.Ctx, k c17Case) {
 }
 
 func checkC17(c *ev.Ctx) {
-	c.Rule("real crypki.NewSigner / Sign (Retries=1, 250 ms per-try deadline) against harness gRPC Signing servers over real TLS on 127.0.0.1..4:port, one scripted answer each: every answer vector over endpoint lists of length 0..3 (quick; 6-answer alphabet {1/3 certificates with comments, Unavailable, Internal, empty key, one good line among bad}) and 0..4 (thorough; 13 answers incl. all status codes, 2 certificates, unparsable key, blocked handler in one position), nil and empty lists; oracle from per-endpoint request logs (strict order, stop at first success, request proto-equal, certificates/comments parallel, never an empty success). Back-off: complete grid attempts {0..64, 2^k-1, 2^k, 2^k+1 (k<=32)} x base {0,1ns,1ms,2s,=max} x max {0,1ms,15s,1h,2^53ns} x multiplier {1,1+2^-52,1.5,3,10,1e9,MaxFloat64} x jitter {0,0.2,1} x jitter-seam answers {0,0.5,1-2^-53}. non-trivial = vector with at least one endpoint / grid point with attempt>0; distinct by vector")
+	c.Rule("real crypki.NewSigner / Sign (Retries=1, 250 ms per-try deadline) against harness gRPC Signing servers over real TLS on 127.0.0.1..4:port, one scripted answer each: every answer vector (with a live context; lists up to length 2 also with an already cancelled / already expired context, and blocked handlers with a 50 ms deadline) over endpoint lists of length 0..3 (quick; 6-answer alphabet {1/3 certificates with comments, Unavailable, Internal, empty key, one good line among bad}) and 0..4 (thorough; 13 answers incl. all status codes, 2 certificates, unparsable key, blocked handler in one position), nil and empty lists; oracle from per-endpoint request logs (strict order, stop at first success, request proto-equal, certificates/comments parallel, never an empty success). Back-off: complete grid attempts {0..64, 2^k-1, 2^k, 2^k+1 (k<=32)} x base {0,1ns,1ms,2s,=max} x max {0,1ms,15s,1h,2^53ns} x multiplier {1,1+2^-52,1.5,3,10,1e9,MaxFloat64} x jitter {0,0.2,1} x jitter-seam answers {0,0.5,1-2^-53}. non-trivial = vector with at least one endpoint / grid point with attempt>0; distinct by vector")
 	c.Assume("configurations whose MaxDelay x (1+Jitter) is not representable as a time.Duration are outside the grid", "TLS/gRPC internals run with their own goroutines and real time; no timing oracle is used")
 	if c.ReplayCase != nil {
 		var k c17Case
@@ -316,6 +347,18 @@ func checkC17(c *ev.Ctx) {
 	vecs = append(vecs, []string{"block"})
 	c.Set("answer_vectors", len(vecs))
 	c17Run(c, c17Case{Kind: "signer", NilList: true})
+	// the caller's context: already cancelled / already past its deadline / expiring while a handler blocks
+	for _, v := range vecs {
+		if len(v) > 2 {
+			continue
+		}
+		for _, cx := range []string{"cancelled", "expired"} {
+			c17Run(c, c17Case{Kind: "signer", Endpoints: v, Ctx: cx})
+		}
+	}
+	for _, v := range [][]string{{"block"}, {"block", "ok1"}, {"unavailable", "block"}, {"block", "block"}} {
+		c17Run(c, c17Case{Kind: "signer", Endpoints: v, Ctx: "short"})
+	}
 	for i, v := range vecs {
 		if c.Expired("answer vectors") {
 			break
